@@ -1,7 +1,7 @@
 (* Extract.v — extraction of the executable model to OCaml.
    Directives: only those of ExtrOcamlBasic (bool, option, unit, prod, list,
    sumbool, sumor -> native OCaml types).  positive/N/Z/nat stay Coq inductives. *)
-From PauLie Require Import Pauli Matrix Sym ClosureN LieInv Star Validator Member Collection PauliBits Parser Compiler.
+From PauLie Require Import Pauli Matrix Sym ClosureN LieInv Star Validator Member Collection PauliBits Parser Compiler Graph Orbit.
 Require Extraction ExtrOcamlBasic.
 Extraction Language OCaml.
 Extraction "oracle.ml"
@@ -15,4 +15,6 @@ Extraction "oracle.ml"
   mk run
   fresh apply_edit set_substring inc text get_index get_diagonal_index gen_all
   parse_text k_local_generators
-  universal nested_eval compile_ok.
+  universal nested_eval compile_ok
+  commutants anticommutation_graph commutator_graph anti_components commutator_components charges pair_count
+  otoc_counts complexity_counts.
